@@ -81,12 +81,43 @@ def late_read(events, run, prev_nodes=None):
         p = prev_nodes.get(run["name"])
         if p and p.get("alive"):
             old_deps = set(p["deps"])
-    for (x, _, _, _, pos) in run["reads"]:
-        if any(p > pos for p in later_runs.get(x, [])):
+    for (x, _, _, eff, pos) in run["reads"]:
+        if eff and any(p > pos for p in later_runs.get(x, [])):
             if old_deps is not None and str(x) in old_deps:
                 continue
             return x
     return None
+
+
+def taint_map(events, prev_nodes=None):
+    """root cause of stale values inside one statement: {(name, start) of a run: finding key}. A run is tainted by F1 if it made a
+    late tracked read (see late_read), by F19 if it read untracked a node that was still scheduled, or -- transitively -- if it read
+    a value that was produced by a tainted run of the same statement."""
+    spans = run_spans(events)
+    starts = {}
+    for r in spans:
+        starts.setdefault(r["name"], []).append(r["start"])
+    taint = {}
+    for r in sorted(spans, key=lambda r: r["end"]):
+        key = None
+        if late_read(events, r, prev_nodes) is not None:
+            key = "F1-late-read"
+        else:
+            for (x, _, _, eff, pos) in r["reads"]:
+                if not eff and any(p > pos for p in starts.get(x, [])):
+                    key = "F19-untracked-stale-read"
+                    break
+        if key is None:
+            for (x, _, _, _, pos) in r["reads"]:
+                prod = [q for q in spans if q["name"] == x and q["end"] < pos]
+                if prod:
+                    k2 = taint.get((x, max(prod, key=lambda q: q["end"])["start"]))
+                    if k2:
+                        key = k2
+                        break
+        if key:
+            taint[(r["name"], r["start"])] = key
+    return taint
 
 
 def prev_nodes_of(steps, k):
@@ -148,10 +179,13 @@ def consistency_failures(prog, steps, only_steps=None):
             if not ok:
                 ks, run = last_run_of(steps, k, name)
                 lr = late_read(steps[ks]["events"], run, prev_nodes_of(steps, ks)) if run else None
+                known = "F1-late-read" if lr is not None else None
+                if known is None and run:
+                    known = taint_map(steps[ks]["events"], prev_nodes_of(steps, ks)).get((run["name"], run["start"]))
+                    if known != "F1-late-read":
+                        known = None            # tracked-only computations: only a (transitive) late subscription can explain it
                 fails.append({"oracle": "consistency", "step": k, "node": name, "kind": kind, "holds": have,
-                              "fresh_value": fresh, "dirty": n["dirty"],
-                              "known": "F1-late-read" if lr is not None else None,
-                              "late_read_of": lr})
+                              "fresh_value": fresh, "dirty": n["dirty"], "known": known, "late_read_of": lr})
     return fails
 
 
@@ -201,7 +235,7 @@ def run(pid, argv, *, module, theorems, gen, oracle, rule, nontrivial, extra_tar
 
     targets = ["theories/Reactive/Show.vo"] + list(extra_targets)
     if module:
-        targets.append("theories/Props/%s.vo" % module)
+        targets += ["theories/Props/%s.vo" % m for m in module.split("+")]
         ok, msg = vlib.proof_step(chk, module, targets, theorems, allow_axioms)
         if not ok:
             broken.append("theorem: " + msg)
@@ -361,14 +395,19 @@ def glitch_failures(prog, steps):
             if c > 1:
                 fails.append({"oracle": "run-once", "step": k, "node": name, "runs": c, "known": None})
         # (b) reads of derived nodes are settled
+        taints = None
         for r in spans:
             for (x, v, syn, eff, pos) in r["reads"]:
                 if x in comps and comps[x][0] in ("memo", "selector"):
                     n = nodes.get(x)
                     if n and n["alive"] and n["value"] is not None and n["value"] != v:
-                        lr = late_read(st["events"], r, prev)
+                        if taints is None:
+                            taints = taint_map(st["events"], prev)
+                        known = taints.get((r["name"], r["start"]))
+                        if known is None and not eff and any(q["name"] == x and q["start"] > pos for q in spans):
+                            known = "F19-untracked-stale-read"
                         fails.append({"oracle": "settled-read", "step": k, "reader": r["name"], "read": x, "saw": v,
-                                      "settled": n["value"], "known": "F1-late-read" if lr is not None else None})
+                                      "settled": n["value"], "tracked": bool(eff), "known": known})
         # (c) every top-level re-run has a trigger among its previous subscriptions
         fired = set(written_signals(stmt))
         for r, d in zip(spans, depths):
